@@ -850,6 +850,7 @@ package gedcom
 //@   loop 1 iter father-iff: nF - old(nF) == ite(dValid(birthOf(indOfC(child))) && dValid(birthOf(father)) && dBefore(birthOf(indOfC(child)), birthOf(father)), 1, 0)
 //@   loop 1 iter mother-iff: nM - old(nM) == ite(dValid(birthOf(indOfC(child))) && dValid(birthOf(mother)) && dBefore(birthOf(indOfC(child)), birthOf(mother)), 1, 0)
 //@   loop 1 invariant count: len(warnings) == nF + nM
+//@   loop 1 nobreak
 //@   loop 1 iter grows: len(warnings) - old(len(warnings)) == (nF - old(nF)) + (nM - old(nM))
 //@   ensures count: len(result) == nF + nM
 
@@ -894,6 +895,7 @@ package gedcom
 //@   oncall FamilyNode.appendMarriedOutOfRange do calls = calls + 1
 //@   oncall FamilyNode.appendMarriedOutOfRange check passes: arg2.Age == lastAge && arg2.IsKnown == lastKnown && arg3 == lastWho
 //@   oncall FamilyNode.appendMarriedOutOfRange check spouse: (arg3 == indOfH(husbandOf(node)) || arg3 == indOfW(wifeOf(node))) && arg3 != 0
+//@   loop 1 nobreak
 //@   loop 1 iter per-spouse: calls - old(calls) == ite(indOfH(husbandOf(node)) != 0, 1, 0) + ite(indOfW(wifeOf(node)) != 0, 1, 0)
 
 // siblings born too close: per ordered pair visited, one warning iff the two
@@ -920,6 +922,8 @@ package gedcom
 //@   oncall NewSiblingsBornTooCloseWarning do nS = nS + 1
 //@   oncall NewSiblingsBornTooCloseWarning check names: arg0 == child1 && arg1 == child2
 //@   loop 2 invariant narrow1: w1 < NINEMONTHS
+//@   loop 1 nobreak
+//@   loop 2 nobreak
 //@   loop 1 invariant pairsok: forall(i, 0, len(pairs), pairs[i] != nil)
 //@   loop 2 invariant pairsok: forall(i, 0, len(pairs), pairs[i] != nil)
 //@   loop 2 iter iff: nS - old(nS) == ite(!same && isnil(err) && w2 < NINEMONTHS && min.Duration >= TWODAYS && (min.Duration < NINEMONTHS || max.Duration < NINEMONTHS) && !hasP, 1, 0)
@@ -945,6 +949,11 @@ package gedcom
 //@   oncall NewIncorrectEventOrderWarning check names: arg0 == futureEvent.Event && arg2 == event.Event
 //@   loop 8 iter iff: nE - old(nE) == ite(dValid(event.Date) && dValid(futureEvent.Date) && comparison == DateRangeComparisonEntirelyBefore, 1, 0)
 //@   loop 8 iter grows: len(warnings) - old(len(warnings)) == nE - old(nE)
+// every event of every group is compared with every event of every later group
+//@   loop 5 nobreak
+//@   loop 6 nobreak
+//@   loop 7 nobreak
+//@   loop 8 nobreak
 
 // several SEX lines.
 //@ func IndividualNode.multipleSexesWarnings
